@@ -9,7 +9,7 @@ import json, os, random
 from vlib import *
 from chk_chanconc import PLATFORM_WRAPS, run_many, concat, exec_of
 
-RULES = {"FrameIdInvalid", "FrameIdNotIncreasing", "FrameWithoutTrigger", "FrameWithoutTriggerAfterEnable", "FrameIdBeyondTriggers",
+RULES = {"FrameIdInvalid", "FrameIdNotIncreasing", "FrameWithoutTrigger", "FrameWithoutTriggerAfterEnable", "FrameIdBeyondTriggers", "FrameSameImageTwice",
          "FrameIdBeyondGenerated", "StopDidNotReturn",
          "FrameCallNotReleased", "HangOther"}
 # C17 clauses SimCamStreamObs also evaluates on these executions (a camera re-configured while a frame call is pending);
